@@ -420,7 +420,33 @@ func uuCampaign(r *ev.Run) {
 			break
 		}
 	}
-	r.Add("evaluations", len(cases)+nbig+ngarb+(1<<24))
+	// dense texts: the decoder takes any length byte, also above 'M' (perl's unpack does too), so
+	// a line may carry more than 45 bytes; the advertised maximum must cover many such lines
+	ndense := 0
+	for _, lb := range []int{'M', 'N', 'P', '_', '`' + 1, 0x80, 0xc0, 0xff} {
+		for _, nl := range []int{1, 2, 10, 41, 200, 1000} {
+			for _, fill := range []byte{'!', '_', 'M'} {
+				for _, eol := range []string{"\n", "\r\n"} {
+					n := lb - 32
+					line := append([]byte{byte(lb)}, bytes.Repeat([]byte{fill}, (n+2)/3*4)...)
+					line = append(line, eol...)
+					text := bytes.Repeat(line, nl)
+					var out []byte
+					var derr error
+					ndense++
+					if perr := safely(func() { out, derr = uu.AppendDecode(nil, text) }); perr != nil {
+						r.Violation("decode:panic", map[string]any{"length_byte": lb, "lines": nl, "error": perr.Error()})
+						continue
+					}
+					if derr == nil && len(out) > uu.MaxDecodedLen(text) {
+						r.Violation("maxlen:decoded-underestimated", map[string]any{"length_byte": lb, "lines": nl, "fill": string(fill), "max": uu.MaxDecodedLen(text), "decoded": len(out), "text_len": len(text)})
+					}
+				}
+			}
+		}
+	}
+	r.Set("dense_texts", ndense)
+	r.Add("evaluations", len(cases)+nbig+ngarb+ndense+(1<<24))
 	r.Add("distinct_nontrivial", len(distinct))
 	r.Set("enc_cases", nenc)
 	r.Set("dec_cases", ndec)
